@@ -5,7 +5,7 @@ the build context's own configuration (what /etc/apko.json and the image config 
 files are re-serialised as a whole (a shipped last line without newline cannot glue with the first added entry).
 Facts regenerated from pkg/build/types/image_configuration.go, pkg/build/build_implementation.go, pkg/build/accounts.go.
 -/
-import Apko.Generated.Glue
+import Apko.Generated.GlueLayer
 
 namespace Apko.C13.Glue
 open Apko
